@@ -10,6 +10,7 @@ A tableau `(cli_r, cli_mat)` on `n` qubits is `r` (packed, `2n` bits) and the li
 of `cli_mat` (column `j` packed: bit `a` = `cli_mat[a, j]`); the columns are the images of `X_j`, `Z_j`.
 -/
 import NumqiModel.Pauli
+import NumqiModel.SpF2
 
 namespace Numqi.Clifford
 
@@ -80,13 +81,24 @@ def multiply (x y : Tab) : Option Tab :=
   let tmp1 := fun j => y.dsum (x.cols.getD j 0)
   let tmp2 := fun j => z.d j
   if (List.range (2 * n)).all (fun j => (tmp0 j + tmp1 j + tmp2 j) % 2 == 0) then
-    let rz := (List.range (2 * n)).foldl (fun acc j =>
-      let delta := (tmp0 j + tmp1 j + 3 * tmp2 j) % 4
+    let rz := SpF2.ofFn (2 * n) fun j =>
+      let delta := (tmp0 j + tmp1 j + 3 * tmp2 j) % 4        -- `(tmp0 + tmp1 - tmp2) % 4`
       let c := x.cols.getD j 0
-      let bit := (x.r.testBit j).toNat + cnt (2 * n) y.r c + y.tri c + delta / 2
-      if bit % 2 == 1 then acc ^^^ 2 ^ j else acc) 0
+      ((x.r.testBit j).toNat + cnt (2 * n) y.r c + y.tri c + delta / 2) % 2 == 1
     some ⟨n, rz, colsZ⟩
   else none
+
+/-- product of phased Paulis on the binary form (`PauliOperator.__matmul__`, the bit-mask version of `Pauli.mul` of C08):
+phase exponents add, plus `2·(z_a · x_b)` -/
+def mulB (n : Nat) (a b : PauliB) : PauliB :=
+  { s0 := (a.s0.toNat + b.s0.toNat + cnt n (a.v >>> n) b.v % 2 + (a.s1.toNat + b.s1.toNat) / 2) % 2 == 1
+    s1 := a.s1 ^^ b.s1
+    v := a.v ^^^ b.v }
+
+/-- the columns of `cli_mat` form a symplectic basis: `Sᵀ Λ S = Λ` (for a square matrix equivalent to `S Λ Sᵀ = Λ`) -/
+def Tab.colSp (t : Tab) : Bool :=
+  (List.range (2 * t.n)).all fun b => (List.range b).all fun a =>
+    (t.zx a b + t.zx b a) % 2 == (if b = a + t.n then 1 else 0)
 
 /-! ### dense matrices over ℤ[i] (row-major lists; qubit 0 is the most significant index bit) -/
 
@@ -250,21 +262,23 @@ def embed (n : Nat) (loc : Tab) (qs : List Nat) : Tab :=
       | some b => place (loc.cols.getD b 0)
       | none => 2 ^ j }
 
-/-- the loop of `to_symplectic_form` (`clifford.py:151-170`): gates in reverse order, `ret = tmp ∘ ret` -/
+/-- one pass of the loop body of `to_symplectic_form` (`clifford.py:156-167`): `ret = tmp ∘ ret` -/
+def symStep (n : Nat) (acc : Except Err Tab) (gate : Gate) : Except Err Tab :=
+  match acc with
+  | .error e => .error e
+  | .ok ret =>
+    match basicDaggerF2 gate.key with
+    | none => .error .assert
+    | some loc =>
+      match multiply ret (embed n loc gate.idx) with
+      | none => .error .assert
+      | some z => .ok z
+
+/-- the loop of `to_symplectic_form` (`clifford.py:151-170`): gates in reverse order, starting from the identity -/
 def symplecticOf (gates : List Gate) : Except Err Tab :=
   match numQubit gates with
   | .error e => .error e
-  | .ok n =>
-    gates.reverse.foldl (fun acc gate =>
-      match acc with
-      | .error e => .error e
-      | .ok ret =>
-        match basicDaggerF2 gate.key with
-        | none => .error .assert
-        | some loc =>
-          match multiply ret (embed n loc gate.idx) with
-          | none => .error .assert
-          | some z => .ok z) (.ok (Tab.id n))
+  | .ok n => gates.reverse.foldl (symStep n) (.ok (Tab.id n))
 
 /-- state of a `CliffordCircuit`: the recorded gates and the memoised `(_R, _S)` -/
 structure St where
